@@ -67,6 +67,14 @@ func (data MoveStakeData) basicCheck(tx *Transaction, context *state.CheckState)
 
 	stake := context.Candidates().GetStakeValueOfAddress(data.FromPubKey, sender, data.Coin)
 
+	if stake == nil && wlStake.Sign() != 1 {
+		return &Response{
+			Code: code.StakeNotFound,
+			Log:  "Stake of current user not found",
+			Info: EncodeError(code.NewStakeNotFound(data.FromPubKey.String(), sender.String(), data.Coin.String(), context.Coins().GetCoin(data.Coin).GetFullSymbol())),
+		}
+	}
+
 	if stake != nil && stake.Sign() == 1 {
 		wlStake.Add(wlStake, stake)
 	} else if wlStake.Cmp(data.Value) < 0 {
